@@ -46,6 +46,26 @@ def classify (r : Bytes) : RClass :=
   else if r.length ≥ 12 ∧ u8 r 2 ≥ 128 then .dns
   else .unknown
 
+/-- `classify` without the STUN shape -/
+def classifyNoStun (r : Bytes) : RClass :=
+  if "HTTP/1.".toUTF8.toList.isPrefixOf r then .http
+  else if "SSH-".toUTF8.toList.isPrefixOf r then .ssh
+  else if "Gh0st".toUTF8.toList.isPrefixOf r then .ghost
+  else if r.length ≥ 8 ∧ u8 r 0 = 0 ∧ sub r 4 4 = [0xff, 0x53, 0x4d, 0x42] then .smb1
+  else if r.length ≥ 8 ∧ u8 r 0 = 0 ∧ sub r 4 4 = [0xfe, 0x53, 0x4d, 0x42] then .smb2
+  else if r.length ≥ 28 ∧ u8 r 0 ≥ 128 ∧ be32 r 8 = 1 ∧ be32 r 12 = 0 ∧ be32 r 0 - 2147483648 = r.length - 4 then .rpcTcp
+  else if r.length ≥ 24 ∧ be32 r 4 = 1 ∧ be32 r 8 = 0 ∧ be32 r 12 = 0 ∧ be32 r 16 = 0 then .rpcUdp
+  else if r.length ≥ 12 ∧ u8 r 2 ≥ 128 then .dns
+  else .unknown
+
+/-- protocol family of a reply `r` to the payload `p`: a reply of STUN shape is a STUN response only if it
+    carries the payload's 128-bit transaction id (bytes 4..19) — an ONC-RPC reply echoing an xid `01 01 …`, or a
+    DNS response with id `01 01`, has the STUN shape but not the transaction id -/
+def classifyFor (p r : Bytes) : RClass :=
+  match classify r with
+  | .stun => if sub r 4 16 = sub p 4 16 then .stun else classifyNoStun r
+  | c => c
+
 def classId : RClass → Option Nat
   | .http => some ID_HTTP | .stun => some ID_STUN | .ssh => some ID_SSH | .ghost => some ID_GHOST
   | .rpcTcp => some ID_RPC_TCP | .rpcUdp => some ID_RPC_UDP | .smb1 => some ID_SMB1 | .smb2 => some ID_SMB2
@@ -67,7 +87,7 @@ def judgeC10 (o : AppObs) : Verdict :=
   match o.reply with
   | none => pass expected.isSome
   | some r =>
-    let c := classify r
+    let c := classifyFor o.payload r
     match classId c with
     | some i =>
       -- RPC replies: the framing tells which of the two RPC signatures was taken
@@ -92,6 +112,15 @@ def judgeC13 (o : AppObs) : Verdict :=
     | some r => if isHttp ∧ !reply401Ok r then failv "401 response malformed" else pass true
     | none => pass false
 
+/-- C13 on a later segment of a TCP flow already identified as HTTP whose first request was complete and
+    answered: a complete request in the strict grammar must be answered with a well-formed 401 again -/
+def judgeC13s (o : AppObs) : Verdict :=
+  if o.forced = some ID_HTTP ∧ strictRequest o.payload then
+    match o.reply with
+    | some r => if reply401Ok r then pass true else failv "401 response malformed (later request of a connection)"
+    | none => failv "complete HTTP request on an answered HTTP connection not answered"
+  else pass false
+
 /-- identification string without the dispatcher's version prefix: `SSH-` digits/dots `-` … CR LF -/
 def sshIdent (p : Bytes) : Bool :=
   "SSH-".toUTF8.toList.isPrefixOf p &&
@@ -100,6 +129,8 @@ def sshIdent (p : Bytes) : Bool :=
    | 45 :: rest => hasCRLF rest
    | _ => false)
 
+/-- an SSH banner is recognised as a complete identification string (`sshIdent`), not by its first four
+    bytes: an ONC-RPC reply echoing the xid `SSH-` is not one -/
 def judgeC18 (o : AppObs) : Verdict :=
   let p := o.payload
   if o.forced = some ID_SSH then
@@ -108,7 +139,7 @@ def judgeC18 (o : AppObs) : Verdict :=
        (if o.reply = some sshBannerExpected then pass true else failv "SSH identification string on an SSH flow not answered with SSH-2.0-1")
      else if !sshIdent p then
        (match o.reply with
-        | some r => if classify r = .ssh then failv "SSH banner sent for a malformed / unterminated identification string (later segment)" else pass true
+        | some r => if sshIdent r then failv "SSH banner sent for a malformed / unterminated identification string (later segment)" else pass true
         | none => pass true)
      else pass false)
   else if o.forced.isSome then pass false
@@ -120,7 +151,7 @@ def judgeC18 (o : AppObs) : Verdict :=
     (if o.reply = some sshBannerExpected then pass true else failv "SSH identification string not answered with SSH-2.0-1")
   else
     match o.reply with
-    | some r => if classify r = .ssh then failv "SSH banner sent for a malformed / unterminated identification string" else pass ("SSH-".toUTF8.toList.isPrefixOf p)
+    | some r => if sshIdent r then failv "SSH banner sent for a malformed / unterminated identification string" else pass ("SSH-".toUTF8.toList.isPrefixOf p)
     | none => pass ("SSH-".toUTF8.toList.isPrefixOf p)
 
 def judgeC14 (o : AppObs) : Verdict :=
@@ -157,7 +188,7 @@ def judgeC15 (o : AppObs) : Verdict :=
       else pass false
     else
       (match o.reply with
-       | some r => if classify r = .stun then failv "STUN response to a message of another class/method" else pass true
+       | some r => if classifyFor p r = .stun then failv "STUN response to a message of another class/method" else pass true
        | none => pass true)
 
 def judgeC16 (o : AppObs) : Verdict :=
